@@ -73,6 +73,8 @@ class Engine:
         self.static_by_id = {}
         self.float_lits = {}
         self.contracts = {}          # function key -> callee-side contract object (apply)
+        self.carry = {}              # role of a callee under contract -> properties that carry its obligations
+        self.missing_functions = []  # functions under contract that are not in the source (see contracts.common.add_task)
         self.finding_conds = {}      # obligation name -> [(finding id, cond(ex) -> z3 Bool)]
         self.keep_smt = False
         self.smt_sink = None
@@ -141,6 +143,12 @@ class Engine:
                 return self.global_const(ex, module, name, v)
         if name in BUILTIN_NAMES:
             return St('builtin', name)
+        if name in ('NotImplemented', 'Ellipsis'):
+            # singletons of the host language: opaque objects, not language values
+            return L.OpaqueV(L.OK['other'], z3.Int('PY_' + name))
+        import builtins
+        if hasattr(builtins, name) and not name.startswith('_'):
+            return St('builtin', name)     # no stub: calling it is an unmodelled call with arbitrary effects
         raise Unsupported('unresolved name %s in %s' % (name, module))
 
     def resolve_import(self, ex, dotted):
@@ -255,6 +263,13 @@ class Engine:
         ex.assume(z3.Select(ex.base_array('DLEN'), ref) == n)
         ex.global_refs = getattr(ex, 'global_refs', {})
         ex.global_refs[(module, name)] = ref
+        if name in self.src.read_only_tables():
+            # only ever read, never aliased (syntactic escape analysis over the whole package): same content always
+            ex.protect_dict(ref)
+            for arr, v in (('DHAS', has), ('DVAL', val), ('DKEY', keys), ('DLEN', z3.IntVal(n))):
+                ex.assume(z3.Select(ex.heap.arr(arr), ref) == v)
+        ex.global_tables = getattr(ex, 'global_tables', {})
+        ex.global_tables[ref.get_id()] = (has, val, [(L.simp(z3.Select(keys, k)), L.simp(z3.Select(val, z3.Select(keys, k)))) for k in range(n)])
         return L.DictV(ref)
 
     def index_lambda(self, ex, node):
